@@ -16,6 +16,9 @@ def run(ctx):
     r = ctx.tlc("map", "MCMapOps", "MCMapOps_c13.cfg" if q else "MCMapOps_c13_thorough.cfg", workers=8, timeout=3000)
     binp = ctx.build("tvh-map")
     ctx.harness("map", binp, ["replay-map", "--only", "lag,fill,clip", "--in", r["emitted"]])
+    # float series holding +-infinity (not a null; IEEE 754: inf - inf and inf / inf have no value)
+    ri = ctx.tlc("map-inf", "MCMapOps", "MCMapOps_inf.cfg", workers=8, timeout=3000)
+    ctx.harness("map-inf", binp, ["replay-map", "--only", "lag", "--in", ri["emitted"]])
     ctx.assumptions += BASE_ASSUMPTIONS + [
         "a lag of +-1000000 in the specification stands for i32::MAX / i32::MIN (any |n| >= len behaves alike)",
         "items are counted by plain safe iteration; the announced length is C09's subject",
